@@ -1202,7 +1202,21 @@ class Engine:
             if len(args) == 1:
                 return mk_int(z3.IndexOf(s.e, args[0].e, 0))
         if name == 'count':
-            return self.call_ufunc_auto('str_count', [s, args[0]], INT, st=st, facts='count')
+            r = self.call_ufunc_auto('str_count', [s, args[0]], INT, st=st, facts='count')
+            a0 = z3.simplify(args[0].e)
+            if z3.is_string_value(a0) and len(a0.as_string()) == 1:
+                st.assume((r.e >= 1) == z3.Contains(s.e, args[0].e))
+                # additivity over a cut: count(t) == count(t[:a]) + count(t[a:]) when s is the suffix t[a:]
+                se = s.e
+                if z3.is_app(se) and se.decl().kind() == z3.Z3_OP_SEQ_EXTRACT:
+                    base, off, ln = se.children()
+                    head = z3.SubString(base, 0, off)
+                    cb = self.call_ufunc_auto('str_count', [mk_str(base), args[0]], INT)
+                    ch = self.call_ufunc_auto('str_count', [mk_str(head), args[0]], INT)
+                    whole = z3.And(off >= 0, off <= z3.Length(base), ln >= z3.Length(base) - off)
+                    st.assume(z3.Implies(whole, cb.e == ch.e + r.e))
+                    st.assume(z3.And(ch.e >= 0, (ch.e >= 1) == z3.Contains(head, args[0].e)))
+            return r
         if name in ('isspace', 'isdigit', 'isupper', 'isalpha'):
             return self.call_ufunc_auto('str_' + name, [s], BOOL)
         if name in ('casefold', 'lower', 'upper'):
